@@ -92,6 +92,29 @@ class OStr:
             self._split[sep] = parts
         return list(self._split[sep])
 
+    def _obs_digits(self):
+        """All characters decimal digits? (a forked observation; implies non-empty)"""
+        if not self._obs_nonempty():
+            return False
+        if getattr(self, "_digits", None) is None:
+            if any(v for v in self._consts.values()):
+                self._digits = False
+            else:
+                self._digits = eng().choice("%s.isdigit" % self.name, 2) == 1
+        return self._digits
+
+    def isdigit(self):
+        return self._obs_digits()
+
+    isdecimal = isnumeric = isdigit
+
+    def __symint__(self):
+        if not self._obs_digits():
+            raise ValueError("invalid literal for int() with base 10")
+        if getattr(self, "_intval", None) is None:
+            self._intval = eng().int("%s.intvalue" % self.name, 0, None)
+        return self._intval
+
     def strip(self, *a):
         raise Unsupported("OStr.strip")
 
